@@ -51,6 +51,7 @@ NumDoubleDef        == 1000
 NumSymbolUndef      == 1010
 NumUnknownInstr     == 1200
 NumJmpDistTooBig    == 1370
+NumTargOnDiffPage   == 1910     \* the other member of the jump family ("jump target not on same page")
 NumNoRestoreFrame   == 1460
 NumMissEndif        == 1470
 NumMissingEndSect   == 1485
@@ -105,9 +106,15 @@ WrXErrorPos(o, d, num) ==
 \* A "jump distance too big" / "target on different page" error raised while no repass has been requested yet in
 \* this pass is remembered in JmpErrors (d.jmp): the label values it used may be stale.  (Once Repass is set the code
 \* generators do not even raise it: the symbol value is flagged questionable.)
-WrJumpError(o, d, repass) ==
-  IF Has(d.exp, NumJmpDistTooBig) THEN [d EXCEPT !.exp = RemoveFirst(@, NumJmpDistTooBig), !.taken = @ + 1]
+\* The family has two numbers (1370, 1910).  ORDER OF THE FILTERS, as in WrXErrorPos: an announcement made with
+\* EXPECT consumes the error FIRST - it is then neither written nor counted in ErrorCount, and therefore it must not
+\* be remembered in JmpErrors either (ExpectedJumpNotRemembered): what -Y later takes out of ErrorCount again has to
+\* have been put in.  Only an error that passes the filters is remembered (if no repass is pending) and counted.
+IsJumpNum(num) == num \in {NumJmpDistTooBig, NumTargOnDiffPage}
+WrJumpErrorN(o, d, repass, num) ==
+  IF Has(d.exp, num) THEN [d EXCEPT !.exp = RemoveFirst(@, num), !.taken = @ + 1]
   ELSE WrErrorString(o, [d EXCEPT !.jmp = IF repass THEN @ ELSE @ + 1], FALSE, FALSE)
+WrJumpError(o, d, repass) == WrJumpErrorN(o, d, repass, NumJmpDistTooBig)
 
 \* SymbolAdder finds that a label has another value than in the previous pass (=> Repass := TRUE, by the caller).
 \* If this is the first such discovery of the pass, the remembered jump errors are forgotten; they are taken out of
